@@ -60,7 +60,7 @@ CLASSES = ["random_cluster", "line_mid_start", "prefix_cut", "prefix_reject", "p
 
 CLAUSES = ["partition", "tomogram", "orders", "link_range", "link_recorded"]
 
-BR_NN = {"nn_empty_radius": ("return -1, []", 0), "nn_none_active": ("return -1, []", 1), "nn_min_filter": "rp_idx = rp_idx[rp_dist > dist_min]",
+BR_NN = {"nn_empty_radius": ("return -1, []", 0), "nn_none_active": ("return -1, []", 1), "nn_min_filter": "rp_idx = rp_idx[rp_dist >",
          "nn_none_after_min": ("return -1, []", 2), "nn_found": "return rp_idx[0], rp_dist[0]"}
 BR_SUF = {"suffix_not_last": "if previous_dist <= current_dist", "suffix_reject": "return False",
           "suffix_tailcut": "current_class = chain_df[store_idx1].values[0]", "suffix_append": "chain_df[store_idx1] = temp_cl_id"}
